@@ -463,6 +463,10 @@ class _Arith:
         # truthiness of a number: x != 0 (forks)
         return bool(self != 0)
 
+    def __format__(self, spec):
+        # f"{i + 1:04d}" in log messages: the text is irrelevant to every contract
+        return f"<{self.t}>"
+
     def __pow__(self, o):
         if isinstance(o, int) and 0 <= o <= 8:
             r = type(self)(z3.IntVal(1) if isinstance(self, SymInt) else z3.RealVal(1))
